@@ -82,10 +82,10 @@ theorem C13_ctx_no_goroutine_left (shape : Shape) (ctx : CallerCtx) (h : Handler
     Ev.stuck ∉ (Wrap.runCtx shape ctx h cs reuse).client ∧
     SEv.left ∉ (Wrap.runCtx shape ctx h cs reuse).server := by
   have hopen : Wrap.open shape = .ok := by cases shape <;> decide
-  have hs : sync false false false (.running (h (GrpcRef.serverCtx ctx)).1) (clientOps shape cs) = true := by
+  have hs : sync shape.statusRead false false (.running (h (GrpcRef.serverCtx ctx)).1) (clientOps shape cs) = true := by
     simp only [WFScripts, Bool.and_eq_true] at hwf
     exact hwf.2
-  have hc := go_complete Cfg.current (h (GrpcRef.serverCtx ctx)).2 reuse false false false
+  have hc := go_complete Cfg.current (h (GrpcRef.serverCtx ctx)).2 reuse shape.statusRead false false
     (.running (h (GrpcRef.serverCtx ctx)).1) (clientOps shape cs) {} hs (by intro hh; cases hh)
   have hc' : (Wrap.runCtx shape ctx h cs reuse).complete = true := by
     unfold Wrap.runCtx Wrap.runCtxCfg
